@@ -65,6 +65,11 @@ def bad_field_classes():
         ("elem-ptr-scalar", "[]*int32", 'frugal:"2,default,list<i32>"'),
         ("val-ptr-scalar", "map[string]*int32", 'frugal:"2,default,map<string:i32>"'),
         ("val-ptr-string", "map[string]*string", 'frugal:"2,default,map<string:string>"'),
+        ("val-ptr-scalar-noannot", "map[string]*int32", 'frugal:"2,default"'),
+        ("val-ptr-string-thrift", "map[string]*string", 'thrift:"m,2"'),
+        ("val-ptr-scalar-optional", "map[int32]*int64", 'frugal:"2,optional"'),
+        ("key-ptr-scalar-noannot", "map[*string]int32", 'frugal:"2,default"'),
+        ("nested-val-ptr-noannot", "map[string]map[string]*int32", 'frugal:"2,default"'),
         ("field-ptr-default", "*int32", 'frugal:"2,default,i32"'),
         ("field-ptr-required", "*string", 'frugal:"2,required,string"'),
         ("ptrptr-struct", "**Leaf", 'frugal:"2,optional,Leaf"'),
